@@ -965,10 +965,14 @@ pub fn gen_desc(r: &mut StdRng, o: &GenOpts) -> Desc {
         for k in 0..r.gen_range(1..4) {
             let after = r.gen_range(0..14) as u8;
             // names walrus does not interpret, including ones that merely resemble the names it does interpret
-            const TRICKY: [&str; 14] = ["reloc..debug_info", "notes.debug", "x.debug_line", "reloc.name", "names", "name ", "producers2", "producer", "target_features", "sourceMappingURL", "linking", "dylink.0", "", "debug"];
+            // look-alikes of the names walrus interprets, and the names other tools' readers know (a delegated classifier may)
+            const TRICKY: [&str; 25] = ["reloc..debug_info", "notes.debug", "x.debug_line", "reloc.name", "names", "name ", "producers2", "producer", "target_features", "sourceMappingURL", "linking", "dylink.0", "", "debug",
+                "dylink", "reloc.CODE", "reloc.DATA", "metadata.code.branch_hint", "component-name", "core", "corestack", "coremodules", "coreinstances", "build_id", "external_debug_info"];
             let nm = if r.gen_bool(0.2) { "dup".to_string() } else if r.gen_bool(0.3) { TRICKY[r.gen_range(0..TRICKY.len())].to_string() } else { format!("{}{}", name(r, "c"), k) };
             let len = *[0usize, 1, 5, 200].choose(r).unwrap();
-            d.customs.push(CustomD { after, name: nm, data: (0..len).map(|_| r.gen()).collect() });
+            // random bytes, or a few bytes such a reader would accept (a version, a section index, an empty vector)
+            let data: Vec<u8> = if r.gen_bool(0.3) { [&[2u8][..], &[2, 0], &[1, 0], &[0], &[0, 0, 0], &[1, 4, 16, 4, 0, 0]].choose(r).unwrap().to_vec() } else { (0..len).map(|_| r.gen()).collect() };
+            d.customs.push(CustomD { after, name: nm, data });
         }
     }
     d
